@@ -60,7 +60,12 @@ def gen_case(rng, i, tier, setups):
         ops.append("halfrate 0 %d" % rng.choice([1, 1, 2]))
     for _ in range(rng.randint(4, 16)):
         r = rng.random()
-        if offgrid and r < 0.5:
+        if offgrid and r < 0.15:
+            # byte-position seeks at half rate: the position told is reconstructed from packet block sizes (full-rate units)
+            ops.append("rawseek 0 %d" % rng.randrange(0, 60000))
+            ops.append("tell 0")
+            ops.append("read 0 %d" % rng.choice([1, 64, 4096]))
+        elif offgrid and r < 0.5:
             # sample-accurate seeks into the later links, on and off their grid, reads and toggles there
             b = sum(lens[:rng.randrange(1, nl)])
             ops.append("pcmseek 0 %d" % min(total, b + rng.choice([0, 1, 2, 3, 64, 65, 1000, 1001, rng.randrange(0, 3000)])))
@@ -82,6 +87,7 @@ def gen_case(rng, i, tier, setups):
         elif r < 0.92:
             ops.append("%s 0 %d" % (rng.choice(["pcmseekpage", "rawseek"]), rng.randrange(0, max(1, total))))
             ops.append("tell 0")
+            ops.append("read 0 %d" % rng.choice([1, 64, 4096]))       # the audio at the position just told
         else:
             ops.append("timeseek 0 %d" % rng.randrange(0, 800))
             ops.append("tell 0")
